@@ -14,6 +14,7 @@ use num_integer::{Integer, Roots};
 use num_traits::{One, Pow, Signed, Zero};
 use proptest::prelude::*;
 use serde::{Deserialize, Serialize};
+use std::cmp::Ordering;
 use std::collections::{BTreeMap, HashSet};
 use std::process::Command;
 
@@ -448,6 +449,36 @@ fn decode_case() -> impl Strategy<Value = EvalCase> {
     let ty = prop_oneof![Just("u"), Just("i"), Just("d"), Just("b"), Just("r"), Just("x")];
     prop_oneof![
         (ty.clone(), json_tokens).prop_map(|(t, s)| EvalCase { line: format!("de_json {t} {}", hexbytes(s.as_bytes())), expect: None, kind: "decode".into(), label: "serde:decode json (arbitrary)".into(), nontrivial: true }),
+        // a readable deserializer that hands the decoder a sequence / a map where it asked for a string
+        (prop_oneof![Just("r"), Just("x")], any::<bool>(), 0u8..10, -40i64..=40, 0u8..8, any::<u32>()).prop_map(|(t, seq, shape, n, dsel, rnd)| {
+            let d: String = match dsel {
+                0 | 1 => "0".into(),
+                2 => "1".into(),
+                3 => "-3".into(),
+                4 => format!("{}", 2 * (rnd % 50)),
+                5 => format!("{}", (rnd as u64) << 33),
+                6 => "00".into(),
+                _ => format!("{}", 1 + rnd % 1000),
+            };
+            let n = if shape == 9 { format!("{}", (n as i128) << 70) } else { format!("{n}") };
+            let toks: Vec<String> = if seq {
+                match shape {
+                    0 => vec![n],
+                    1 => vec![n, d.clone(), d],
+                    2 => vec![],
+                    _ => vec![n, d],
+                }
+            } else {
+                match shape {
+                    0 => vec!["numerator".into(), n],
+                    1 => vec!["denominator".into(), d, "numerator".into(), n],
+                    2 => vec!["numerator".into(), n.clone(), "denominator".into(), d, "numerator".into(), n],
+                    3 => vec!["numerator".into(), n, "denominator".into(), d, "extra".into(), "1".into()],
+                    _ => vec!["numerator".into(), n, "denominator".into(), d],
+                }
+            };
+            EvalCase { line: format!("de_val {t} {} {}", if seq { "seq" } else { "map" }, toks.join(" ")), expect: None, kind: "decode".into(), label: "serde:decode a sequence / map through a readable deserializer".into(), nontrivial: true }
+        }),
         (ty, proptest::collection::vec(any::<u8>(), 0..24), 0u8..4).prop_map(|(t, mut b, shape)| {
             // postcard: length-prefixed byte strings; make the prefix plausible most of the time
             if shape != 0 && !b.is_empty() {
@@ -666,9 +697,69 @@ fn prim_case() -> impl Strategy<Value = EvalCase> {
     })
 }
 
+/// NumOrd / NumHash of big integers against primitive integers of every width
+fn nord_case() -> impl Strategy<Value = EvalCase> {
+    (0u8..10, any::<u128>(), 0u32..128, any::<bool>(), any::<bool>(), 0u8..6).prop_map(|(shape, raw, k, xneg, pneg, rel)| {
+        let p: u128 = match shape {
+            0 => raw as u8 as u128,
+            1 => raw as u32 as u128,
+            2 => (1u128 << 32) + (raw as u16 as u128),          // just above a 32-bit word
+            3 => raw as u64 as u128,
+            4 => 1u128 << k,
+            5 => (1u128 << k) - 1,
+            6 => (1u128 << 64) + (raw as u32 as u128),
+            7 => raw,
+            8 => (raw as u64 as u128) | (1 << 63),
+            _ => (1u128 << 32) * (1 + (raw as u8 as u128)),     // low 32 bits zero
+        };
+        // the big operand: equal to the primitive, next to it, its low half, or unrelated
+        let x: BigInt = match rel {
+            0 => BigInt::from(p),
+            1 => BigInt::from(p) + 1,
+            2 => BigInt::from(p) - 1,
+            3 => BigInt::from(p & 0xffff_ffff),
+            4 => BigInt::from(p as u64),
+            _ => BigInt::from(raw >> (raw % 97)),
+        };
+        let x = if xneg { -x } else { x };
+        let ch = |o: Ordering| match o {
+            Ordering::Less => '<',
+            Ordering::Equal => '=',
+            Ordering::Greater => '>',
+        };
+        let mut expect = String::new();
+        for bits in [8u32, 16, 32, 64, 128, 64] {
+            let q = BigInt::from(if bits == 128 { p } else { p & ((1u128 << bits) - 1) });
+            let c = x.cmp(&q);
+            expect.push(ch(c));
+            expect.push(ch(c.reverse()));
+            if !x.is_negative() {
+                expect.push(ch(c));
+                expect.push(ch(c.reverse()));
+                expect.push('h');
+            }
+            expect.push(' ');
+        }
+        for bits in [8u32, 16, 32, 64, 128, 64] {
+            let t = if bits == 128 { p } else { p & ((1u128 << bits) - 1) };
+            // two's complement reading of the truncated pattern, negated (wrapping) when asked
+            let sv: i128 = if bits == 128 { t as i128 } else { ((t << (128 - bits)) as i128) >> (128 - bits) };
+            let sv = if pneg { if bits == 128 { sv.wrapping_neg() } else { let n = sv.wrapping_neg(); (n << (128 - bits)) >> (128 - bits) } } else { sv };
+            let c = x.cmp(&BigInt::from(sv));
+            expect.push(ch(c));
+            expect.push(ch(c.reverse()));
+            expect.push('h');
+            expect.push(' ');
+        }
+        let label = if p >> 32 != 0 && p >> 64 == 0 { "int:NumOrd against primitives (33-64 bits: wider than a 32-bit word)" } else if p >> 64 != 0 { "int:NumOrd against primitives (> 64 bits)" } else { "int:NumOrd against primitives (<= 32 bits)" };
+        EvalCase { line: format!("inord {} {p} {}", hx(&x), pneg as u8), expect: Some(expect), kind: "eq".into(), label: label.into(), nontrivial: p >> 32 != 0 }
+    })
+}
+
 fn all_cases() -> impl Strategy<Value = EvalCase> {
     prop_oneof![
         2 => prim_case(),
+        2 => nord_case(),
         2 => cbor_case(),
         3 => conv_case(),
         3 => mod_case(),
